@@ -178,7 +178,7 @@ func (k *check) raceJobs(bin string) []func() {
 			jf := filepath.Join(work, "job.json")
 			os.WriteFile(jf, []byte(mustJSON(job)), 0o644)
 			logp := filepath.Join(work, "racelog")
-			r := core.Exec(work, k.env(home, "GOMAXPROCS=8", "GORACE=halt_on_error=0 log_path="+logp), 20*time.Minute, "", bin, jf)
+			r := core.Exec(work, k.env(home, "GOMAXPROCS=8", "GOGC=400", "GORACE=halt_on_error=0 log_path="+logp), 20*time.Minute, "", bin, jf)
 			var out cw.RaceOut
 			b, err := os.ReadFile(job.Out)
 			if r.TimedOut || err != nil || jsonUnmarshal(b, &out) != nil || out.Err != "" {
